@@ -89,16 +89,19 @@ def run(ctx):
         rs = [json.loads(o) for o in outs]
         for k, op in enumerate(c["ops"]):
             h, f, late = rs[0][k]
+            # an error value is compared across objects and runs by code and position (the statement's list); its rendered text only with its own later rendering
+            core = lambda x: x.split("#", 1)[0] if (x.startswith("E") or x.startswith("ok")) and "#" in x else x
+            h_full, h, f = h, core(h), core(f)
             info = {"pool": {kk: c.get(kk) for kk in ("schemas", "shared_types", "docs", "enums", "regexes")}, "history": c["ops"][:k + 1], "op": op, "in_history": h, "fresh": f, "later": late}
             if h != f:
                 if len(ctx.violations) < 40:
                     ctx.report("operation %s after history %s returns %s, on fresh objects %s" % (op, c["ops"][:k], h[:100], f[:100]), "c11h:" + l + str(k), info, case=info)
                 break
-            if late and late != h:
+            if late and late != h_full:
                 if len(ctx.violations) < 40:
                     ctx.report("the value returned by %s changed after later calls: %s -> %s (history %s)" % (op, h[:80], late[:80], c["ops"]), "c11s:" + l + str(k), info, case=info)
                 break
-            alt = [r[k][1] for r in rs[1:]]
+            alt = [core(r[k][1]) for r in rs[1:]]
             if any(a != f for a in alt):
                 if len(ctx.violations) < 40:
                     ctx.report("operation %s on fresh objects gives different results on different runs (map iteration order): %s vs %s" % (op, f[:100], [a[:100] for a in alt]), "c11m:" + l + str(k),
